@@ -20,6 +20,12 @@ def run(ctx):
             tlc_mc(ctx, SD, "MC_OrderedA", "mc_ordered_run.cfg", workers=8, coverage=False, timeout=3000,
                    cfg_text="CONSTANTS Multi = %s\n IsMap = FALSE\n Desc = %s\n Keys = {1, 2, 3, 4}\n MaxLen = %d\nSPECIFICATION Spec\nINVARIANTS LawsHold Trichotomy\nCHECK_DEADLOCK FALSE\n" %
                    (multi, desc, 5 if quick else 7))
+    # the in-node searches (binary and linear) against their definition, every sorted node content; the seeded change C01b must be refuted
+    NS = "CONSTANTS Keys = {1, 2, 3, 4}\n MaxSlots = %d\n Variant = \"%s\"\nSPECIFICATION Spec\nINVARIANT SearchesAgree\nCHECK_DEADLOCK FALSE\n"
+    tlc_mc(ctx, SD, "NodeSearchI", "mc_nodesearch.cfg", workers=8, coverage=False, timeout=3000, cfg_text=NS % (6 if quick else 9, "fixed"))
+    r = tlc_mc(ctx, SD, "NodeSearchI", "mc_nodesearch_neg.cfg", workers=8, coverage=False, timeout=3000, expect_ok=False, cfg_text=NS % (5, "lower_returns_on_match"))
+    if r["ok"] or " is violated" not in r["out"]:
+        raise InternalError("negative self-test: NodeSearchI with find_lower returning on the first match is not refuted")
     lines, header = histories(ctx, rng, quick)
     for ln in lines:
         ctx.count_case(ln, nontrivial=len(ln.split()) >= 5)
